@@ -1,3 +1,4 @@
+mod cfgsweep;
 mod cluster;
 mod codecs;
 mod falsify;
@@ -65,6 +66,62 @@ fn refine(args: &[String]) {
     let mut n_mismatch = 0u64;
     let mut diff_hist: BTreeMap<String, u64> = BTreeMap::new();
     let mut samples: Vec<J> = vec![];
+    // correspondence of Timer's Ord (src/runtime.rs) with the model's timer_seq: every pair out of a
+    // set with two timers of each kind must compare the same way on both sides
+    if first_history == 0 {
+        let ia = VId { a: 3, g: 1, k: 0, pad: 0 };
+        let ib = VId { a: 200, g: 7, k: 2, pad: 0 };
+        let ts = vec![
+            MTimer::Probe(0), MTimer::Probe(9),
+            MTimer::Indirect(ia, 0), MTimer::Indirect(ib, 200),
+            MTimer::SuspectToDown(ia, 0, 0), MTimer::SuspectToDown(ib, 65535, 255),
+            MTimer::Announce(0), MTimer::Announce(77),
+            MTimer::AnnounceDown(0), MTimer::AnnounceDown(5),
+            MTimer::Gossip(0), MTimer::Gossip(254),
+            MTimer::RemoveDown(ia), MTimer::RemoveDown(ib),
+        ];
+        let mut seqs = vec![];
+        let mut err = None;
+        for t in &ts {
+            match model.timer_seq(t) {
+                Ok(x) => seqs.push(x),
+                Err(e) => {
+                    err = Some(e);
+                    break;
+                }
+            }
+        }
+        let mut bad: Vec<String> = vec![];
+        if let Some(e) = err {
+            bad.push(format!("model_error:{e}"));
+        } else {
+            for (i, a) in ts.iter().enumerate() {
+                for (j, b) in ts.iter().enumerate() {
+                    let real = a.to_timer().cmp(&b.to_timer());
+                    let modelled = seqs[i].cmp(&seqs[j]);
+                    if real != modelled && bad.len() < 3 {
+                        bad.push(format!("{a:?} vs {b:?}: Timer::cmp gives {real:?}, the model's timer_seq gives {modelled:?}"));
+                    }
+                }
+            }
+        }
+        total += (ts.len() * ts.len()) as u64;
+        *by_kind.entry("timer.order").or_default() += (ts.len() * ts.len()) as u64;
+        if !bad.is_empty() {
+            n_mismatch += 1;
+            let comp = if bad[0].starts_with("model_error") { bad[0].clone() } else { "timers.order".to_string() };
+            *diff_hist.entry(format!("timer.order:{comp}")).or_default() += 1;
+            mismatches.push(J::obj(vec![
+                ("kind", J::s("timer-order")),
+                ("history", J::n(0u64)),
+                ("step", J::n(0u64)),
+                ("input_kind", J::s("timer.order")),
+                ("input", J::s("pairs of timers compared with Timer's Ord and with the model's timer_seq")),
+                ("diffs", J::A(vec![J::s(comp)])),
+                ("detail", J::A(bad.iter().map(|b| J::s(b.clone())).collect())),
+            ]));
+        }
+    }
     for h in first_history..first_history + histories {
         let mut g = G::new(seed.wrapping_mul(1_000_003).wrapping_add(h));
         let cfg = gen_cfg(&mut g);
@@ -177,6 +234,12 @@ fn main() {
                     std::process::exit(2);
                 }
             }
+        }
+        Some("cfgsweep") => {
+            let shard: u64 = arg(&args, "--shard", "0").parse().unwrap();
+            let shards: u64 = arg(&args, "--shards", "1").parse().unwrap();
+            let stride: u64 = arg(&args, "--stride", "1").parse().unwrap();
+            println!("{}", cfgsweep::run(shard, shards, stride).to_string());
         }
         _ => {
             eprintln!("usage: harness refine --seed N --histories H --steps L");
